@@ -157,6 +157,30 @@ def splitBar (s : String) : String × String :=
   | [a, b] => (a, b)
   | _ => ("", s)
 
+/-- `CheckerController.CheckRegion`: `<fit> | <outcome>` with placement rules on, `<outcome>` otherwise.
+    The checker in charge is decided by the placement-rules switch *at the time of the call* – also when the
+    controller was created in the other mode (`check ctlx`). -/
+def ctlStep (d : DState) (rid : String) (impl : String) : DState × StepOut :=
+    -- CheckerController.CheckRegion: `<fit> | <outcome>` with placement rules on, `<outcome>` otherwise
+    match d.desc.region (natArg rid) with
+    | none => (d, { model := "no-region" })
+    | some r =>
+      if impl.startsWith "err:" then (d, { model := impl }) else
+      if d.desc.rules then
+        let (fitS, outS) := splitBar impl
+        match parseFit r fitS with
+        | none => (d, { model := "bad-fit" })
+        | some fit =>
+          let outs := controllerCheck d.desc.opts true d.desc.stores r fit
+          let x : Input := ruleInput d.desc.opts d.desc.stores r fit
+          let model := if outcomeAllowed d.desc.jc r outs outS then impl else fitS ++ " | " ++ renderOuts outs
+          (d, { model := model, fails := monitor x d.desc.jc "ctl-rule" outS })
+      else
+        let outs := controllerCheck d.desc.opts false d.desc.stores r {}
+        let x : Input := replicaInput d.desc.opts d.desc.stores r
+        let model := if outcomeAllowed d.desc.jc r outs impl then impl else renderOuts outs
+        (d, { model := model, fails := monitor x d.desc.jc "ctl-replica" impl })
+
 def step (d : DState) (opLine : String) (impl : String) : DState × StepOut :=
   let ws := words opLine
   match ws with
@@ -185,26 +209,8 @@ def step (d : DState) (opLine : String) (impl : String) : DState × StepOut :=
           let x : Input := ruleInput d.desc.opts d.desc.stores r fit
           let model := if outcomeAllowed d.desc.jc r outs outS then impl else fitS ++ " | " ++ renderOuts outs
           (d, { model := model, fails := monitor x d.desc.jc "rule" outS })
-  | ["check", "ctl", rid] =>
-    -- CheckerController.CheckRegion: `<fit> | <outcome>` with placement rules on, `<outcome>` otherwise
-    match d.desc.region (natArg rid) with
-    | none => (d, { model := "no-region" })
-    | some r =>
-      if impl.startsWith "err:" then (d, { model := impl }) else
-      if d.desc.rules then
-        let (fitS, outS) := splitBar impl
-        match parseFit r fitS with
-        | none => (d, { model := "bad-fit" })
-        | some fit =>
-          let outs := controllerCheck d.desc.opts true d.desc.stores r fit
-          let x : Input := ruleInput d.desc.opts d.desc.stores r fit
-          let model := if outcomeAllowed d.desc.jc r outs outS then impl else fitS ++ " | " ++ renderOuts outs
-          (d, { model := model, fails := monitor x d.desc.jc "ctl-rule" outS })
-      else
-        let outs := controllerCheck d.desc.opts false d.desc.stores r {}
-        let x : Input := replicaInput d.desc.opts d.desc.stores r
-        let model := if outcomeAllowed d.desc.jc r outs impl then impl else renderOuts outs
-        (d, { model := model, fails := monitor x d.desc.jc "ctl-replica" impl })
+  | ["check", "ctl", rid] => ctlStep d rid impl
+  | ["check", "ctlx", rid] => ctlStep d rid impl
   | _ =>
     match d.desc.apply ws with
     | some desc => ({ desc := desc }, { model := "ok" })
